@@ -257,13 +257,21 @@ def id_penalised(mon, K, rng, real_t, w0, UP, U, p, leg, tag, meta):
 
 
 # ---- identities, 2-D -------------------------------------------------------------------------------
-def id_psi2(mon, K, rng, real_t, psi, p, q, resets, leg, tag, meta):
+def id_psi2(mon, K, rng, real_t, psi, p, q, resets, leg, tag, meta, hist=None):
     rec = mon.rec
     P = psi.astype(F64)
-    for r in resets:
+    for ir, r in enumerate(resets):
         u = util.sentinel_like(rng, (2, *psi.shape), real_t)
         w = util.sentinel_like(rng, psi.shape, real_t)
-        if not _try(rec, "outplane_2d-raises", meta, K.outplane[r], curl=u, field=psi, prefactor=_sc(rec, real_t, p)):
+        if hist is not None:
+            # velocity history filled snapshot by snapshot: the output is the TEMPORARY view hist[j] (freed after the call)
+            j = hist[1] * len(resets) + ir
+            ok = _try(rec, "outplane_2d-raises", meta, K.outplane[r], curl=hist[0][j], field=psi, prefactor=_sc(rec, real_t, p))
+            u = hist[0][j]
+            rec.count("outplane_curl_calls_into_temporary_history_views")
+            if not ok:
+                continue
+        elif not _try(rec, "outplane_2d-raises", meta, K.outplane[r], curl=u, field=psi, prefactor=_sc(rec, real_t, p)):
             continue
         U = u.astype(F64)
         # centred NumPy divergence (differences; the common 1/(2dx) is a power of two and omitted)
@@ -376,13 +384,20 @@ def run_rand(sh, rec):
         if leg == "integer":
             p, q = float(rng.choice(PREF)), float(rng.choice(PREF))
             inv_dx = float(2.0 ** int(rng.integers(0, 7)))
-            mk = lambda lead: ints(rng, (*lead, *shape), real_t)  # noqa: E731
+            mk0 = lambda lead: ints(rng, (*lead, *shape), real_t)  # noqa: E731
         else:
             p, q = (float(rng.uniform(0.2, 3) * rng.choice([-1, 1])) for _ in range(2))
             inv_dx = float(rng.uniform(1, 60))
             sc = float(10.0 ** rng.uniform(-2, 2))
-            mk = lambda lead: np.ascontiguousarray((rng.standard_normal((*lead, *shape)) * sc).astype(real_t))  # noqa: E731
-        meta = {"dtype": sh["dtype"], "shape": shape, "p": p, "q": q, "inv_dx": inv_dx, "leg": leg}
+            mk0 = lambda lead: np.ascontiguousarray((rng.standard_normal((*lead, *shape)) * sc).astype(real_t))  # noqa: E731
+        if i % 3 == 2:
+            # the fields arrive as NON-contiguous views (halo interior, every-second-element, column-major): same values, other strides
+            def mk(lead, mk0=mk0):
+                rec.count("noncontiguous_input_fields")
+                return util.noncontiguous_copy(rng, mk0(lead))
+        else:
+            mk = mk0
+        meta = {"dtype": sh["dtype"], "shape": shape, "p": p, "q": q, "inv_dx": inv_dx, "leg": leg, "views": i % 3 == 2}
         tag = f"shape-{small}"
         if d == 3:
             F, UP, U, w0 = mk((3,)), mk((3,)), mk((3,)), mk((3,))
@@ -391,6 +406,11 @@ def run_rand(sh, rec):
         else:
             F, UP, U, w0 = mk((2,)), mk((2,)), mk((2,)), mk(())
             id_psi2(mon, K, rng, real_t, mk(()), p, q, (True, False), leg, tag, meta)
+            if i % 4 == 1:
+                # the same kernel objects filling a velocity history: outputs are temporary views hist[j] of one owning array
+                harr = util.sentinel_like(rng, (6, 2, *shape), real_t).copy()
+                for js in range(3):
+                    id_psi2(mon, K, rng, real_t, mk0(()), p, q, (True, False), leg, tag + "-history", dict(meta, snapshot=js), hist=(harr, js))
         id_forcing(mon, K, rng, real_t, w0, F, p, leg, tag, meta)
         id_penalised(mon, K, rng, real_t, w0, UP, U, p, leg, tag, meta)
         rec.count("random_integer_fields" if leg == "integer" else "noise_fields")
